@@ -320,6 +320,130 @@ Theorem parsed_pep_semver_rendering_fixed_point s p : pep_parse s = Some p -> lo
 Proof. intros H L. destruct (pep_semver_rendering_fixed_point p (pep_parse_nf s p H) L) as [_ R]. exact R. Qed.
 
 
+
+(* ---------------- without the restriction on local segments: an all-digit text segment (2^32 or more, kept as text by PEP 440) is read as a number
+   by the SemVer rendering when it fits u64 - the rendering is a fixed point all the same ---------------- *)
+Definition ident_sem (g : lseg) : ident := match g with LStr s => classify_u64 s | LUInt n => IUInt n end.
+
+Lemma ident_sem_nf g : lseg_nf g -> ident_nf (ident_sem g).
+Proof.
+  destruct g as [s|n]; cbn [lseg_nf ident_sem].
+  - intros [G [U [Z P]]]. unfold classify_u64. destruct (parse_u64 s) as [n|] eqn:E.
+    + cbn [ident_nf]. exact (IdentProofs.parse_u64_bound s n E).
+    + cbn [ident_nf]. destruct G as [Gn Ga]. split; [split; [exact Gn|split; [exact Ga|exact Z]]|exact E].
+  - intros H. apply u32_u64, H.
+Qed.
+
+Lemma local_ids g vs : lseg_nf g -> sv_build_ids (comp_of_lseg g) vs = [ident_sem g].
+Proof.
+  destruct g as [s|n]; cbn [lseg_nf comp_of_lseg ident_sem]; unfold sv_build_ids; cbn [comp_value].
+  - intros [G [U [Z P]]]. destruct G as [Gn Ga]. assert (W : seg_wf s) by (split; [exact Gn|split; [exact Ga|exact Z]]).
+    change (sanitize semver_str s) with (sanitize_to_string (custom_str (Some [c_dot]) false false None) s).
+    rewrite (contract_fixed c_dot dot_not_alnum false false None s (seg_contract s W)).
+    destruct s as [|x s'] eqn:Es; [congruence|]. cbn [nonempty]. rewrite <- Es in *. unfold flatten_ids.
+    rewrite (split_on_cfree c_dot s (alnum_cfree c_dot dot_not_alnum s Ga)). cbn [filter]. assert (Nn : nonempty s = true) by (rewrite Es; reflexivity).
+    rewrite Nn. reflexivity.
+  - intros H. exact (build_ids_ident (IUInt n) vs (u32_u64 n H)).
+Qed.
+
+Lemma local_flat l vs : Forall lseg_nf l -> flat_map (fun c => sv_build_ids c vs) (map comp_of_lseg l) = map ident_sem l.
+Proof. induction 1 as [|g l Hg Hl IH]; [reflexivity|]. cbn [map flat_map]. rewrite (local_ids g vs Hg), IH. reflexivity. Qed.
+
+Theorem pep_to_semver_all rel xs a b c e pl po pd (loc : option (list lseg)) :
+  (rel = [a] /\ b = 0 /\ c = 0 /\ xs = []) \/ (rel = [a; b] /\ c = 0 /\ xs = []) \/ rel = a :: b :: c :: xs ->
+  Forall u64 xs -> u64 a -> u64 b -> u64 c -> opt_u64 e -> e <> Some 0 -> (match pl with Some (_, n) => u64 n | None => True end) -> opt_u64 po -> opt_u64 pd ->
+  (match loc with Some l => l <> [] /\ Forall lseg_nf l | None => True end) ->
+  semver_of_zerv (zerv_of_pep (mkp (match e with Some n => n | None => 0 end) rel
+      (match pl with Some (l, _) => Some l | None => None end) (match pl with Some (_, n) => Some n | None => None end)
+      (match po with Some _ => true | None => false end) po (match pd with Some _ => true | None => false end) pd
+      loc)) = ext_semver xs a b c e pl po pd (option_map (map ident_sem) loc).
+Proof.
+  intros Hrel Hxs Ha Hb Hc He He0 Hpl Hpo Hpd Hbl. unfold semver_of_zerv, zerv_of_pep, ext_semver, mkp.
+  cbn [z_schema z_vars s_core s_extra s_build p_epoch p_release p_pre_label p_pre_num p_post_label p_post_num p_dev_label p_dev_num p_local].
+  set (E := match e with Some n => n | None => 0 end).
+  assert (Ee : (if 0 <? E then Some E else None) = e).
+  { unfold E. destruct e as [n|]; [|reflexivity]. destruct (0 <? n) eqn:Z; [reflexivity|]. apply N.ltb_ge in Z. assert (n = 0) by lia. subst. congruence. }
+  rewrite Ee.
+  assert (Sk : skipn 3 rel = xs) by (destruct Hrel as [[-> [_ [_ ->]]]|[[-> [_ ->]]| ->]]; reflexivity). rewrite Sk.
+  set (vs := {| v_major := nth_error rel 0; v_minor := nth_error rel 1; v_patch := nth_error rel 2; v_epoch := e;
+                v_pre := match match pl with Some (l, _) => Some l | None => None end with
+                         | Some l => Some {| pr_label := l; pr_num := match pl with Some (_, n) => Some n | None => None end |} | None => None end;
+                v_post := po; v_dev := pd;
+                v_distance := None; v_dirty := None; v_bumped_branch := None; v_bumped_hash := None; v_bumped_ts := None;
+                v_last_branch := None; v_last_hash := None; v_last_ts := None; v_last_tag := None; v_custom := JNull |}).
+  assert (Core : sv_process_core (standard_core ++ map CUInt xs) vs O {| a_major := 0; a_minor := 0; a_patch := 0; a_pre := None; a_build := None |}
+                 = {| a_major := a; a_minor := b; a_patch := c; a_pre := some_if_nonempty (map IUInt xs); a_build := None |}).
+  { unfold standard_core, vs. destruct Hrel as [[-> [-> [-> ->]]]|[[-> [-> ->]]| ->]];
+      cbn [app map sv_process_core comp_value var_value v_major v_minor v_patch omap nth_error];
+      rewrite ?uint_sanitize_print, ?print_dec_nonempty, ?(parse_u64_print a Ha), ?(parse_u64_print b Hb), ?(parse_u64_print c Hc); try reflexivity.
+    cbn [Nat.ltb Nat.leb]. rewrite (core_uints xs _ Hxs). cbn [a_major a_minor a_patch a_pre a_build]. rewrite push_none. reflexivity. }
+  rewrite Core. cbn [a_major a_minor a_patch a_pre a_build].
+  rewrite !push_fold, <- (push_none (map IUInt xs)), push_ids_app, !push_none. f_equal.
+  - f_equal. unfold ext_pre. f_equal. unfold prerelease_post_dev_extra, canon_pre. cbn [flat_map sv_extra_ids is_secondary]. rewrite app_nil_r. f_equal; [|f_equal; [|f_equal]].
+    + destruct e as [n|]; [apply (secondary_epoch vs n eq_refl He)|apply (secondary_none Epoch vs eq_refl eq_refl)].
+    + destruct pl as [[l n]|]; [apply (secondary_pre vs l n eq_refl Hpl)|apply (secondary_none PreRelease vs eq_refl eq_refl)].
+    + destruct po as [n|]; [apply (secondary_post vs n eq_refl Hpo)|apply (secondary_none Post vs eq_refl eq_refl)].
+    + destruct pd as [n|]; [apply (secondary_dev vs n eq_refl Hpd)|apply (secondary_none Dev vs eq_refl eq_refl)].
+  - destruct loc as [l|]; [|reflexivity]. destruct Hbl as [Hne Hl]. cbn [option_map].
+    rewrite (local_flat l vs Hl). destruct l; [congruence|reflexivity].
+Qed.
+
+Lemma p_eta (p : pep) : pep_nf p -> p = mkp (p_epoch p) (p_release p) (match f_pre p with Some (l, _) => Some l | None => None end) (match f_pre p with Some (_, n) => Some n | None => None end)
+                        (match p_post_num p with Some _ => true | None => false end) (p_post_num p)
+                        (match p_dev_num p with Some _ => true | None => false end) (p_dev_num p) (p_local p).
+Proof.
+  intros [He [Hrn Hru] Hpre Hpost Hdev Hl]. destruct p as [e rel pl pn ql qn dl dn loc]. unfold mkp, f_pre.
+  cbn [p_epoch p_release p_pre_label p_pre_num p_post_label p_post_num p_dev_label p_dev_num p_local] in *.
+  assert (E1 : pl = match match pl, pn with Some l, Some n => Some (l, n) | _, _ => None end with Some (l, _) => Some l | None => None end)
+    by (destruct pl; [destruct Hpre as [n [-> _]]|]; reflexivity).
+  assert (E2 : pn = match match pl, pn with Some l, Some n => Some (l, n) | _, _ => None end with Some (_, n) => Some n | None => None end)
+    by (destruct pl; [destruct Hpre as [n [-> _]]; reflexivity|exact Hpre]).
+  assert (E3 : ql = match qn with Some _ => true | None => false end) by (destruct ql; [destruct Hpost as [n [-> _]]; reflexivity|rewrite Hpost; reflexivity]).
+  assert (E4 : dl = match dn with Some _ => true | None => false end) by (destruct dl; [destruct Hdev as [n [-> _]]; reflexivity|rewrite Hdev; reflexivity]).
+  rewrite <- E1, <- E2, <- E3, <- E4. reflexivity.
+Qed.
+
+(* THE FIXED POINT FOR EVERY PEP 440 VALUE IN NORMAL FORM - no condition on the local segments *)
+Theorem pep_semver_rendering_fixed_point_all p : pep_nf p ->
+  let sv := semver_of_zerv (zerv_of_pep p) in
+  sv = ext_semver (skipn 3 (p_release p)) (r0 p) (r1 p) (r2 p) (f_epoch p) (f_pre p) (p_post_num p) (p_dev_num p) (option_map (map ident_sem) (p_local p)) /\
+  semver_parse (semver_print sv) = Some sv /\
+  exists z, zerv_of_semver sv = Some z /\ semver_of_zerv z = sv.
+Proof.
+  intros Hnf. pose proof Hnf as [He [Hrn Hru] Hpre Hpost Hdev Hl].
+  assert (R : forall i, u64 (nth i (p_release p) 0)).
+  { intros i. apply u32_u64. destruct (nth_in_or_default i (p_release p) 0) as [Hin|E]; [rewrite Forall_forall in Hru; apply Hru, Hin|rewrite E; unfold u32; lia]. }
+  assert (Ue : opt_u64 (f_epoch p)) by (unfold f_epoch; destruct (0 <? p_epoch p); [apply u32_u64, He|exact I]).
+  assert (Ue0 : f_epoch p <> Some 0).
+  { unfold f_epoch. destruct (0 <? p_epoch p) eqn:E; [|discriminate]. apply N.ltb_lt in E. intros K. inversion K. lia. }
+  assert (Upl : match f_pre p with Some (_, n) => u64 n | None => True end).
+  { unfold f_pre. destruct (p_pre_label p) as [lb|]; [|exact I]. destruct Hpre as [n [-> Hn]]. apply u32_u64, Hn. }
+  assert (Upo : opt_u64 (p_post_num p)) by (destruct (p_post_label p); [destruct Hpost as [n [-> Hn]]; apply u32_u64, Hn|rewrite Hpost; exact I]).
+  assert (Upd : opt_u64 (p_dev_num p)) by (destruct (p_dev_label p); [destruct Hdev as [n [-> Hn]]; apply u32_u64, Hn|rewrite Hdev; exact I]).
+  assert (Epoch : match f_epoch p with Some n => n | None => 0 end = p_epoch p).
+  { unfold f_epoch. destruct (0 <? p_epoch p) eqn:E; [reflexivity|]. apply N.ltb_ge in E. lia. }
+  assert (Uxs : Forall u64 (skipn 3 (p_release p))).
+  { apply Forall_skipn. eapply Forall_impl; [|exact Hru]. intros n; apply u32_u64. }
+  assert (Hbl : match option_map (map ident_sem) (p_local p) with Some l => l <> [] /\ Forall ident_nf l | None => True end).
+  { destruct (p_local p) as [l|]; [|exact I]. cbn [option_map]. destruct Hl as [Hne Hw]. split; [destruct l; [congruence|discriminate]|].
+    apply Forall_map. eapply Forall_impl; [|exact Hw]. intros g; apply ident_sem_nf. }
+  assert (S1 : semver_of_zerv (zerv_of_pep p)
+               = ext_semver (skipn 3 (p_release p)) (r0 p) (r1 p) (r2 p) (f_epoch p) (f_pre p) (p_post_num p) (p_dev_num p) (option_map (map ident_sem) (p_local p))).
+  { rewrite (p_eta p Hnf) at 1. rewrite <- Epoch. apply pep_to_semver_all; try assumption; try apply R.
+    apply release_cases_any. exact Hrn. }
+  cbv zeta. split; [exact S1|]. split; [apply parse_back|]. rewrite S1. apply ext_roundtrip; try assumption; apply R.
+Qed.
+
+Theorem render_pep_to_semver_fixed_point_all s p : pep_parse s = Some p ->
+  exists t, render_cmd FPep440 FSemver [] s = OOk t /\ render_cmd FSemver FSemver [] t = OOk t /\ render_cmd FAuto FSemver [] t = OOk t.
+Proof.
+  intros H. destruct (pep_semver_rendering_fixed_point_all p (pep_parse_nf s p H)) as [_ [P [z [Z R]]]].
+  exists (semver_print (semver_of_zerv (zerv_of_pep p))). split; [|split].
+  - unfold render_cmd, parse_version. rewrite H. reflexivity.
+  - unfold render_cmd, parse_version. rewrite P, Z. cbn [format_zerv]. rewrite R. reflexivity.
+  - unfold render_cmd, parse_version. rewrite P, Z. cbn [format_zerv]. rewrite R. reflexivity.
+Qed.
+
 (* the same at the command:  zerv render <pep440> -f pep440 --output-format semver  prints a text that  zerv render -f semver|auto --output-format semver
    prints back unchanged *)
 Theorem render_pep_to_semver_fixed_point s p : pep_parse s = Some p -> local_plain p ->
@@ -335,3 +459,5 @@ Qed.
 Print Assumptions pep_semver_rendering_fixed_point.
 Print Assumptions render_pep_to_semver_fixed_point.
 Print Assumptions ext_roundtrip.
+Print Assumptions pep_semver_rendering_fixed_point_all.
+Print Assumptions render_pep_to_semver_fixed_point_all.
